@@ -42,7 +42,7 @@ pub fn run(ctx: &Ctx) -> i32 {
     let th = ctx.tier.thorough();
     let (depth, rw) = if th { (6, 6) } else { (5, 5) };
     let mut rm = families::plain(rw);
-    rm.extend(families::decode_only().into_iter().take(2)); rm.extend(families::nsn().into_iter().take(if th { 10 } else { 4 })); rm.extend(families::valued_few());
+    rm.extend(families::decode_only().into_iter().take(2)); rm.extend(families::nsn().into_iter().take(if th { 10 } else { 4 })); rm.extend(families::valued_few()); rm.extend(families::decorated_obscured());
     let mut roots = explore::roots_from(&rm);
     // payload classes
     roots.push(("2KB-repetitive".into(), Envelope::new("x".repeat(2000)).add_assertion("k", "y".repeat(500))));
